@@ -194,11 +194,15 @@ class HistContainer(IndexedContainer):
     @property
     def overflow(self):
         """the number of entries in the overflow bin"""
+        if self._unprocessed_entries:  # process outstanding entries
+            self._fill_unprocessed()
         return self._data[-1]
 
     @property
     def underflow(self):
         """the number of entries in the underflow bin"""
+        if self._unprocessed_entries:  # process outstanding entries
+            self._fill_unprocessed()
         return self._data[0]
 
     @property
